@@ -276,6 +276,29 @@ func (g *xgen) buildSigned(rs *ResponseSpec, placement int, key *KeyPair, mod fu
 	return doc
 }
 
+// wrapWire lays a base64 string out in lines: 0 = 76 columns CRLF (MIME), 1 = 64 columns LF + trailing LF (PEM style),
+// 2 = 76 columns CRLF + trailing CRLF
+func wrapWire(s string, layout int) string {
+	n, nl, trail := 76, "\r\n", false
+	switch layout {
+	case 1:
+		n, nl, trail = 64, "\n", true
+	case 2:
+		trail = true
+	}
+	var sb strings.Builder
+	for len(s) > n {
+		sb.WriteString(s[:n])
+		sb.WriteString(nl)
+		s = s[n:]
+	}
+	sb.WriteString(s)
+	if trail {
+		sb.WriteString(nl)
+	}
+	return sb.String()
+}
+
 func assertionChildren(root *etree.Element) []*etree.Element {
 	var out []*etree.Element
 	for _, c := range root.ChildElements() {
@@ -1231,6 +1254,11 @@ func runResponseStream(c *Ctx, n int, focus string) {
 			rc.labels = append(rc.labels, "deflated")
 		}
 		rc.wire = b64(wire)
+		if wl := r.Intn(8); wl < 3 {
+			// the form value as user agents and MIME-minded IdPs deliver it: line-wrapped base64 (CRLF or LF), trailing break
+			rc.wire = wrapWire(rc.wire, wl)
+			rc.labels = append(rc.labels, "wire-base64-line-wrapped")
+		}
 		// --- trusted specs (generator knowledge) ---
 		respOK := computeTrust(rc)
 		obs := runOneResponse(c, cs, rc, respOK, profileFault)
